@@ -90,7 +90,8 @@ def plan(tier):
     shards += [("set", i) for i in range(8)]
     shards += [("merge", i) for i in range(6)]
     shards += [("diff", i) for i in range(6)]
-    shards += [("validate", 0), ("paths", 0), ("paths", 1), ("conform", 0)]
+    shards += [("validate", 0), ("paths", 0), ("paths", 1), ("paths", 2),
+               ("conform", 0)]
     bounds = {"yaml-get": {"documents": len(GET_DOCS), "paths":
                            len(GET_PATHS), "deliveries": 3, "formats": 3},
               "tools": sorted(cli.TOOLS)}
@@ -112,9 +113,13 @@ def run_shard(shard):
         elif kind == "validate":
             shard_validate(st, wd)
         elif kind == "paths":
-            shard_paths(st, wd, shard[1])
+            if shard[1] == 2:
+                shard_paths_multi(st, wd)
+            else:
+                shard_paths(st, wd, shard[1])
         else:
             shard_conform(st, wd)
+            shard_get_raw(st, wd)
     return st
 
 
@@ -165,6 +170,69 @@ def shard_get(st, wd, lo, hi):
         if di == lo:
             st.sample({"tool": "yaml-get", "doc": texts["flow"],
                        "argv": ["--query=" + paths.render(GET_PATHS[3], "/")]})
+
+
+# documents whose values the JSON-safe conversion has to translate (dates,
+# timestamps, sets, tagged scalars): (document, query, expected stdout lines)
+GET_RAW = [
+    ("d: 2020-01-01\nl: [2020-01-02, x]\nc: {d: 2020-01-03, n: 1}\n"
+     "t: 2001-12-14T21:59:43.10-05:00\ns: !!set {? a, ? b}\n"
+     "tagged: !custom value\nmulti: \"line1\\nline2\"\nnothing: null\n"
+     "f: 1.50\ntruth: yes\n", [
+         ("/d", ["2020-01-01"]), ("/l", ['["2020-01-02", "x"]']),
+         ("/c", ['{"d": "2020-01-03", "n": 1}']),
+         ("/t", ["2001-12-14T21:59:43.100000-05:00"]),
+         ("/s", ['{"a": null, "b": null}']), ("/tagged", ["value"]),
+         ("/multi", ["line1\\nline2"]), ("/nothing", ["\x00"]),
+         ("/f", ["1.5"]), ("/truth", ["yes"]),
+         ("/l[0]", ["2020-01-02"]), ("/c/d", ["2020-01-03"]),
+         ("/*[.=1.50]", ["1.5"]), ("/c/*", ["2020-01-03", "1"]),
+     ]),
+]
+
+
+def shard_get_raw(st, wd):
+    for text, queries in GET_RAW:
+        fname = os.path.join(wd, "raw.yaml")
+        cli.write(fname, text)
+        for query, want in queries:
+            for delivery in ("file", "dash"):
+                if delivery == "file":
+                    res = cli.run("yaml-get", ["--query=" + query, fname])
+                else:
+                    res = cli.run("yaml-get", ["--query=" + query, "-"],
+                                  stdin=text)
+                case = {"tool": "yaml-get", "doc": text,
+                        "argv": ["--query=" + query], "delivery": delivery}
+                note(st, "yaml-get", res, ("raw", delivery), query)
+                if crashed(st, "yaml-get", res, case):
+                    continue
+                got = res.out.split("\n")
+                if got and got[-1] == "":
+                    got.pop()
+                if res.code != 0 or got != want:
+                    st.fail("yaml-get|typed-values", case, want,
+                            "%s %r" % (res.code, got))
+        # the same values through yaml-merge's JSON writer
+        other = os.path.join(wd, "other.yaml")
+        cli.write(other, "extra: 1\n")
+        res = cli.run("yaml-merge", ["--nostdin", "--document-format=json",
+                                     fname, other])
+        note(st, "yaml-merge", res, ("raw-json",), "raw")
+        case = {"tool": "yaml-merge", "lhs": text, "rhs": "extra: 1\n",
+                "argv": ["--document-format=json"]}
+        try:
+            got = json.loads(res.out)
+        except ValueError:
+            got = None
+        if not isinstance(got, dict) or got.get("d") != "2020-01-01" or \
+                got.get("l") != ["2020-01-02", "x"] or \
+                got.get("c") != {"d": "2020-01-03", "n": 1} or \
+                got.get("extra") != 1 or got.get("nothing", 0) is not None \
+                or got.get("tagged") != "value":
+            st.fail("yaml-merge|json-typed-values", case,
+                    "dates as ISO strings, null, tagged value unwrapped",
+                    res.out[:300])
 
 
 def check_get(st, text, fname, ptext, out, shp, fmt):
@@ -607,6 +675,113 @@ def shard_paths(st, wd, half):
                "argv": ["--search==aa", "--nofile"]})
 
 
+def _plain(node):
+    if isinstance(node, dict):
+        return {str(k): _plain(v) for k, v in node.items()}
+    if isinstance(node, list):
+        return [_plain(v) for v in node]
+    return corpus.plain_scalar(node)
+
+
+def shard_paths_multi(st, wd):
+    """Streams of several documents, several files, several expressions,
+    --except and --values: every document is searched on its own, results
+    are unique per document, and each line carries its own labels."""
+    docs = [("m", (("ka", "aa"), ("kb", ("l", ("ab", 1000))), ("kc", "xx"))),
+            ("m", (("ka", "ab"), ("kc", "aa"), ("kd", ("m", (("ka", "aa"),))))),
+            ("l", ("aa", ("m", (("ka", "ab"), ("kb", 1000))), "xx")),
+            ("m", (("kz", "zz"),))]
+    texts = [corpus.render_block(d) + "\n" for d in docs]
+    loaded = [corpus.load(t) for t in texts]
+    searches = [[("=", "aa", False)], [("^", "a", False)],
+                [("=", "aa", False), ("^", "a", False)],
+                [("^", "a", False), ("=", "aa", False)],
+                [("=", "1000", False), ("=~", "x", False)]]
+    layouts = []
+    for i in range(len(docs)):
+        for j in range(len(docs)):
+            layouts.append([[i, j]])            # one stream of two documents
+            layouts.append([[i], [j]])          # two files
+    layouts += [[[0, 1, 0]], [[0, 3], [1, 0]]]
+    mode_of = lambda what, sep: (what, False, False, False, sep)
+    for layout in layouts:
+        names = []
+        for fi, members in enumerate(layout):
+            fname = os.path.join(wd, "multi%d.yaml" % fi)
+            cli.write(fname, "---\n" + "---\n".join(
+                texts[m] for m in members))
+            names.append(fname)
+        for exprs in searches:
+            for what in ("values", "keys+values"):
+                for sep in ("dot", "slash"):
+                    for extra in ((), ("--nofile",), ("--values",),
+                                  ("--except",)):
+                        check_paths_multi(st, layout, names, texts, loaded,
+                                          exprs, mode_of(what, sep), extra)
+
+
+def check_paths_multi(st, layout, names, texts, loaded, exprs, mode, extra):
+    what, _, _, _, sep = mode
+    argv = ["--pathsep=" + ("." if sep == "dot" else "/")]
+    if what != "values":
+        argv.append("--keynames")
+    expressions = []
+    for expr in exprs:
+        expression, _ = C07.run_search(loaded[0], expr, mode)
+        expressions.append(expression)
+        argv.append("--search=" + expression)
+    excepted = None
+    for flag in extra:
+        if flag == "--except":
+            excepted = ("$", "b", False)
+            argv.append("--except=$b")
+        else:
+            argv.append(flag)
+    want = []
+    for fi, members in enumerate(layout):
+        for di, m in enumerate(members):
+            found = []
+            for expr, expression in zip(exprs, expressions):
+                _, results = C07.run_search(loaded[m], expr, mode)
+                for p in results:
+                    if str(p) not in [f[1] for f in found]:
+                        found.append((expression, str(p), p))
+            if excepted:
+                _, drop = C07.run_search(loaded[m], excepted, mode)
+                gone = set(str(p) for p in drop)
+                found = [f for f in found if f[1] not in gone]
+            for expression, ptext, pobj in found:
+                line = ""
+                if "--nofile" not in extra:
+                    line += "%s/%d" % (names[fi], di)
+                if len(exprs) > 1:
+                    line += "[%s]" % expression
+                if "--nofile" not in extra or len(exprs) > 1:
+                    line += ": "
+                line += ptext
+                if "--values" in extra:
+                    from yamlpath import Processor
+                    node = list(Processor(corpus.LOG, loaded[m]).get_nodes(
+                        ptext, mustexist=True))[0].node
+                    line += ": " + (json.dumps(_plain(node)) if isinstance(
+                        node, (dict, list)) else str(node))
+                want.append(line)
+    res = cli.run("yaml-paths", argv + ["--nostdin"] + names)
+    case = {"tool": "yaml-paths", "argv": argv, "layout": layout,
+            "doc": [texts[m] for ms in layout for m in ms]}
+    note(st, "yaml-paths", res, ("multi", len(layout), len(exprs), extra,
+                                 sep, what), "docs")
+    if crashed(st, "yaml-paths", res, case):
+        return
+    got = [l for l in res.out.split("\n") if l != ""]
+    if res.code != 0:
+        st.fail("yaml-paths|multi|exit-status", case, 0, "%s %s" % (
+            res.code, res.err[:120]))
+    elif got != want:
+        st.fail("yaml-paths|multi|stdout|%s" % ",".join(extra), case, want,
+                got)
+
+
 def check_paths(st, wd, fname, text, doc, expr, mode):
     what, ka, va, expand, sep = mode
     try:
@@ -711,12 +886,14 @@ def replay(case):
         elif tool == "yaml-paths":
             shard_paths(st, wd, 0)
             shard_paths(st, wd, 1)
+            shard_paths_multi(st, wd)
         elif tool == "yaml-diff":
             for i in range(len(DIFF_DOCS)):
                 shard_diff(st, wd, i)
         elif tool == "yaml-merge":
             for i in range(len(MERGE_DOCS)):
                 shard_merge(st, wd, i)
+            shard_get_raw(st, wd)
         elif tool == "yaml-set":
             for i in range(len(SET_DOCS)):
                 shard_set(st, wd, i)
@@ -724,6 +901,7 @@ def replay(case):
             plan("quick")
             shard_get(st, wd, 0, len(GET_DOCS))
             shard_conform(st, wd)
+            shard_get_raw(st, wd)
     for lst in st.fails.values():
         for f in lst:
             if f["case"].get("argv") == case.get("argv") or True:
